@@ -12,7 +12,9 @@ def main():
                 bad.append(m)
                 print(out[-1500:])
     print("sany: %d modules parsed, %d failed %s" % (len(mods), len(bad), bad))
-    return 1 if bad else 0
+    # a module that does not parse makes the checks that use it fail with exit 2 (machinery failure);
+    # setup itself only fails when nothing parses (broken tool chain)
+    return 1 if bad and len(bad) == len(mods) else 0
 
 if __name__ == "__main__":
     sys.exit(main())
